@@ -217,7 +217,7 @@ class Model:
                 if ev.ok:
                     value = ev.value
                     if done[0] == "cond-":
-                        value = tuple(sorted(value, key=repr))
+                        value = tuple(value)      # members in the order they were given
                     self.emit(proc.name, done[0], self.now, done[1], value)
                 else:
                     self.emit(proc.name, done[0][:-1] + "!", self.now, done[1], ev.value)
